@@ -18,7 +18,7 @@ TD64_MAX = 86399999913599999  # (timedelta.max - 1 day) in ms, kio's documented 
 DT_MAX = 253402300799999  # 9999-12-31T23:59:59.999Z in ms
 STR_LENGTHS_SMALL = (0, 1, 2, 5, 126, 127, 128)
 STR_LENGTHS_BIG = (16383, 16384, 32767)  # 32767 = the most a legacy (int16-length) string can hold
-BYTES_LENGTHS_HUGE = (65537, 1048577)  # beyond typical chunking thresholds (64 KiB, 1 MiB)
+BYTES_LENGTHS_HUGE = (65537, 1048577, 2097152)  # beyond typical chunking thresholds (64 KiB, 1 MiB); 2^21: the compact length needs a 4-byte varint
 BIG_LABELS = tuple(f"len{n}" for n in STR_LENGTHS_BIG + BYTES_LENGTHS_HUGE)
 ARRAY_BOUNDARY_CELLS = ("n127", "n128")  # compact array length varint goes from one to two bytes
 CHARS = ("a", "z", "0", " ", "é", "ß", "€", "한", "𝄞", "😀", "\x00", "\x7f")
@@ -253,7 +253,7 @@ class Gen:
             if self._lean or self.rng.random() >= self.big_prob:
                 labs = [lab for lab in labs if lab not in BIG_LABELS]
             else:
-                labs = [lab for lab in labs if lab != "len1048577"]
+                labs = [lab for lab in labs if lab not in ("len1048577", "len2097152")]
         return self.rng.choice(labs)
 
     def prim(self, fs: FieldSpec, label: str | None = None, allow_null: bool = True) -> object:
